@@ -165,11 +165,6 @@ Proof.
 Qed.
 
 (* ---- syntactic analysis: dup-free / uniform ---- *)
-Definition un (p : alg) : bool := subsetv (maybe p) (cert p).
-
-Fixpoint nodup_rows (rows : list sol) : bool :=
-  match rows with [] => true | r :: rs => negb (mem_sol r rs) && nodup_rows rs end.
-
 Lemma nodup_rows_NoDup rows : nodup_rows rows = true -> NoDup rows.
 Proof.
   induction rows as [|r rs IH]; cbn; [constructor|]. intros H. apply andb_true_iff in H as [H1 H2].
